@@ -115,34 +115,31 @@ def mask_volatile(text):
 
 
 def parse_debug(text):
-    """get_debug(): 0/1 rows, optional closure row, instance block."""
+    """get_debug(): one 0/1 row per student (possibly empty), optional closure
+    row, then the instance block (one line of pairs per student)."""
     rows, closures, pairs = [], None, []
     mode = None
-    for line in text.split('\n'):
-        s = line.strip()
+    lines = text.split('\n')
+    i = 0
+    while i < len(lines):
+        s = lines[i].strip()
         if s.startswith('Main lp decision variables'):
             mode = 'x'
-            continue
-        if s.startswith('Project closure variables'):
+        elif s.startswith('Project closure variables'):
             mode = 'c'
-            continue
-        if s.startswith('Model instance information'):
+        elif s.startswith('Model instance information'):
             mode = 'i'
-            continue
-        if mode == 'x':
-            if s == '' and rows and False:
-                continue
+        elif mode == 'x':
             if re.fullmatch(r'[01 ]*', s):
-                if s != '' or True:
-                    rows.append([int(x) for x in s.split()])
-            continue
-        if mode == 'c' and s and re.fullmatch(r'[01 ]+', s):
-            closures = [int(x) for x in s.split()]
-            continue
-        if mode == 'i' :
+                rows.append([int(x) for x in s.split()])
+        elif mode == 'c':
+            if s and re.fullmatch(r'[01 ]+', s):
+                closures = [int(x) for x in s.split()]
+        elif mode == 'i':
             row = []
             for m in re.finditer(r'\(s(\d+) p(\d+) rs(\d+) l(\d+)(?: rl(\d+))?\)', s):
                 row.append({'s': int(m.group(1)), 'p': int(m.group(2)), 'rs': int(m.group(3)),
                             'l': int(m.group(4)), 'rl': int(m.group(5)) if m.group(5) else None})
             pairs.append(row)
+        i += 1
     return {'rows': rows, 'closures': closures, 'pairs': pairs}
